@@ -389,16 +389,17 @@ func (in *inst) open() {
 			// no bucket for yet; create the bucket with an object outside the model's universe.
 			in.warm = true
 			in.mu.Lock()
-			in.passAll = true
+			hold := in.holdRound
+			in.holdRound = true // no background flush of the warm-up object
 			in.mu.Unlock()
 			obj, data := mkObj(in.rnd, in.cnr, unit)
 			kit.Must(in.sh.Put(obj, data))
 			kit.Must(in.sh.Delete(in.cnr, []oid.ID{obj.Address().Object()}))
-			in.waitFor(func() bool { return in.sent == in.done }, 10*time.Second)
 			in.mu.Lock()
-			in.passAll = false
+			in.holdRound = hold
 			in.events = nil
 			in.mu.Unlock()
+			in.release(func(pk *park) bool { return pk.kind == "round" }, decision{})
 		}
 		return
 	}
